@@ -85,7 +85,7 @@ ER = "moptipyapps.ttp.errors"
 PLANS["C07"] = Plan(
     "C07", "other",
     functions=[ER + ":count_errors"],
-    lemmas=["tri_bound"],
+    lemmas=["tri_bound", "trin_closed", "trin_nonneg", "trin_mono", "trin_up", "trin_dn", "trin_inj_all", "pm_range", "pm_ge"],
     bounded=[bounded.ttp_errors.harness],
     explanation="proved on count_errors: every array access in range for every plan with entries in -n..n (self-play included), "
                 "scratch arrays written before read (no dependence on earlier evaluations), stores within the scratch dtype, "
@@ -93,8 +93,11 @@ PLANS["C07"] = Plan(
                 "limits: every team plays every day, all entries are mutually consistent, every pairing occurs "
                 "days // (n - 1) times with home / away roles differing by at most one (scratch table = recursive home-game "
                 "count), and no home or away streak leaves its permitted range (streak state machine = recursive streak "
-                "lengths hs / aw; maximum on every day, minimum at every streak end incl. the end of the plan). "
-                "bounded (exhaustive): the separation clause, the converse (feasible implies 0) and value == documented "
+                "lengths hs / aw; maximum on every day, minimum at every streak end incl. the end of the plan), and repeated "
+                "meetings of a pairing respect the separation limits (triangular scratch table = recursive previous-meeting "
+                "day per pair, slots of different pairs proved distinct; the second scan of a pair is shown to be skipped by "
+                "consistency) - i.e. a plan with value 0 is a feasible schedule. "
+                "bounded (exhaustive): the converse (feasible implies 0) and value == documented "
                 "per-rule count against a statement-derived executable specification over ALL 12^6 consistent 4-team plans x "
                 "constraint settings, plus random plans",
     assumptions=["the error counter is treated as a mathematical integer (no int64 overflow obligation: a bound needs "
@@ -549,8 +552,8 @@ META = {
             "technique": "contract-based deductive verification (iteration invariant 'earlier days blocked') + exhaustive enumeration"},
     "C07": {"text": "count_errors proved memory-safe, stateless w.r.t. its scratch arrays, non-negative, and zero only for plans "
                     "in which every team plays every day consistently, every pairing occurs the prescribed number of times "
-                    "with balanced roles and no streak leaves its permitted range (all plans, all sizes, all limits); the "
-                    "separation clause, the converse direction and "
+                    "with balanced roles, no streak leaves its permitted range and repeated pairings respect the separation "
+                    "limits - a plan with value 0 is feasible (all plans, all sizes, all limits); the converse direction and "
                     "the per-rule count are decided exhaustively for all 12^6 four-team plans x constraint settings against an "
                     "executable specification written from the statement; declared upper bound: known finding F4",
             "note": "level 'other': proof for the clauses a contract can carry + exhaustive bounded enumeration for the "
